@@ -563,7 +563,7 @@ fn run(ctx: &Ctx) {
     }
 
     // (b) random full slots at random indices of random-length programs
-    let cases = ctx.share(ctx.tier.pick(200_000, 4_000_000));
+    let cases = ctx.share(ctx.tier.pick(1_000_000, 20_000_000));
     ctx.search("slots", "slot", cases, prog_with_slot(), |(prog, idx), want_case| {
         let v = check_slot_in_prog(prog, *idx);
         if !want_case {
@@ -583,7 +583,7 @@ fn run(ctx: &Ctx) {
     });
 
     // (c) builder constructors, single and chained
-    let cases = ctx.share(ctx.tier.pick(120_000, 3_000_000));
+    let cases = ctx.share(ctx.tier.pick(600_000, 12_000_000));
     ctx.search("builder", "builder", cases, prop::collection::vec(builder_case(), 1..4), |chain, want_case| {
         let v = check_builder(chain);
         if !want_case {
